@@ -7,7 +7,10 @@ package codes
 // breaker (black box: a rejected call is one whose req did not run).
 
 import (
+	"context"
+	"errors"
 	"fmt"
+	"io"
 	"testing"
 	"time"
 
@@ -41,8 +44,28 @@ func c01CodeErr(c gcodes.Code, variant int) error {
 	return c01StatusErr{st: status.New(c, "c01")}
 }
 
+// c01NonStatus: errors that carry no gRPC status. Under gRPC's own definition
+// (status.Code) such an error has code Unknown (a wrapped benign status has either
+// its own code or Unknown), which is not in the statement's failing set; raw
+// context.Canceled is named benign explicitly. Raw context.DeadlineExceeded and
+// wrapped failing statuses are left unasserted (the statement leaves them open).
+type c01PlainErr struct{ msg string }
+
+func (e c01PlainErr) Error() string { return e.msg }
+
+var c01NonStatus = []struct {
+	name string
+	err  error
+}{
+	{"errors.New", errors.New("c01 plain error")},
+	{"custom-error-type", c01PlainErr{"c01 custom error type"}},
+	{"raw-context.Canceled", context.Canceled},
+	{"io.EOF", io.EOF},
+	{"wrapped-NotFound-status", fmt.Errorf("c01 wrap: %w", status.Error(gcodes.NotFound, "c01"))},
+}
+
 func TestVerifC01GRPCCodesTable(t *testing.T) {
-	m := vk.New(t, "C01", "codes.Acceptable over all 17 gRPC codes (status.Error and GRPCStatus() carriers): predicate value; each benign code alone x150 calls through breaker.DoWithAcceptable on a fresh breaker => 0 rejections; 10000 mixed benign codes => 0 rejections; each failing code alone x400 => at least one rejection with ErrServiceUnavailable; virtual clock frozen; non-trivial = row completed (benign) / breaker rejected (failing)")
+	m := vk.New(t, "C01", "codes.Acceptable over all 17 gRPC codes (status.Error and GRPCStatus() carriers) and over errors without a gRPC status (plain, custom type, raw context.Canceled, io.EOF, wrapped benign status: code Unknown/benign under status.Code => benign): predicate value; each benign code alone x150 calls through breaker.DoWithAcceptable on a fresh breaker => 0 rejections; 10000 mixed benign codes => 0 rejections; each failing code alone x400 => at least one rejection with ErrServiceUnavailable; virtual clock frozen; non-trivial = row completed (benign) / breaker rejected (failing)")
 	defer m.Done()
 	logx.Disable()
 	stat.SetReporter(nil)
@@ -115,15 +138,48 @@ func TestVerifC01GRPCCodesTable(t *testing.T) {
 		m.Case("failing-"+name, rej > 0)
 		m.Sample(map[string]any{"scenario": fmt.Sprintf("%s x%d on a fresh breaker", name, perBad), "rejected": rej, "first_rejection_at_call": first})
 	}
+	// ---- errors without a gRPC status (code Unknown under status.Code)
+	var benignErrs []error
+	for i, row := range c01NonStatus {
+		desc := fmt.Sprintf("case=%d;non-status error %s alone on a fresh breaker", 50+i, row.name)
+		if got := status.Code(row.err); c01Failing[got] {
+			m.Skip("non-status row " + row.name + ": status.Code maps it to " + got.String())
+			continue
+		}
+		m.Count("predicate_evaluations", 1)
+		if !Acceptable(row.err) {
+			m.Violate("C01:benign:grpc-codes:non-status:"+row.name+":predicate", desc, "Acceptable(%v) = false although status.Code reports %s, which is not one of DeadlineExceeded/Internal/Unavailable/DataLoss/Unimplemented", row.err, status.Code(row.err))
+			m.Case("benign-nonstatus-"+row.name, false)
+			continue
+		}
+		benignErrs = append(benignErrs, row.err)
+		b := breaker.New()
+		okRow := true
+		for k := 0; k < perBenign; k++ {
+			ran := false
+			err := b.DoWithAcceptable(func() error { ran = true; return row.err }, Acceptable)
+			m.Count("calls_benign_non_status", 1)
+			if !ran {
+				m.Violate("C01:benign:grpc-codes:non-status:"+row.name+":rejected", desc, "call #%d was rejected (%v) after only %s outcomes", k, err, row.name)
+				okRow = false
+				break
+			}
+		}
+		m.Case("benign-nonstatus-"+row.name, okRow)
+	}
 	brk := breaker.New()
 	n := vk.N(10000, 200000)
 	for i := 0; i < n; i++ {
 		c := benign[r.Intn(len(benign))]
+		e := c01CodeErr(c, i)
+		if len(benignErrs) > 0 && r.Intn(4) == 0 {
+			e = benignErrs[r.Intn(len(benignErrs))]
+		}
 		ran := false
-		err := brk.DoWithAcceptable(func() error { ran = true; return c01CodeErr(c, i) }, Acceptable)
+		err := brk.DoWithAcceptable(func() error { ran = true; return e }, Acceptable)
 		m.Count("calls_benign_mixed", 1)
 		if !ran {
-			m.Violate("C01:benign:grpc-codes:mixed:rejected", "case=100;mixed benign codes on one breaker", "call #%d (%s) rejected (%v) although every outcome so far was benign", i, c, err)
+			m.Violate("C01:benign:grpc-codes:mixed:rejected", "case=100;mixed benign codes and non-status errors on one breaker", "call #%d (%v) rejected (%v) although every outcome so far was benign", i, e, err)
 			break
 		}
 	}
